@@ -15,13 +15,38 @@ THEOREMS = [
     "Mtv.TL.readN_ne_panic",
     "Mtv.TL.popMessage_ne_panic",
     "Mtv.TL.decMembers_ne_panic",
+    # never loops: more fuel never changes a result; an explicit fuel is never exhausted; depth of packed objects
+    "Mtv.TL.fuel_mono_all",
+    "Mtv.TL.fuel_mono_decVal",
+    "Mtv.TL.fuel_mono_decVecBody",
+    "Mtv.TL.fuel_mono_decItems",
+    "Mtv.TL.fuel_mono_decStruct",
+    "Mtv.TL.fuel_mono_decFields",
+    "Mtv.TL.fuel_mono_decRegistered",
+    "Mtv.TL.fuel_mono_decodeUnknown",
+    "Mtv.TL.fuel_mono_decodeNamed",
+    "Mtv.TL.decoder_consumes",
+    "Mtv.TL.level_enough",
+    "Mtv.TL.depth_enough",
+    "Mtv.TL.decode_never_loops",
+    "Mtv.TL.decode_fuel_irrelevant",
+    "Mtv.TL.decode_never_loops_plain",
+    "Mtv.TL.nested_packed_refused",
+    "Mtv.TL.nested_packed_opened",
 ]
 RULE = ("structure-aware mutation: a valid encoding of every registered struct constructor, then prefix truncations "
         "(aligned and unaligned), 32-bit words replaced by other registered ids / enum ids / vector, Bool, null, gzip, "
         "container, msg_copy ids / boundary integers, single-bit flips; every enum id alone and inside rpc_result; "
         "vectors at the root and inside rpc_result under ten hint sets with counts up to 2^32-1; containers with "
         "every sign and magnitude of count and size and every truncation; gzip_packed valid / nested / corrupted / "
-        "garbage; hostile string headers; random bytes. Inputs built from the SCHEMA (own reader of schemes/api_latest.tl and own "
+        "garbage; gzip members with every header / trailer field changed (ISIZE, CRC-32, MTIME, XFL, OS, CM, FLG bits with "
+        "FEXTRA lengths / FNAME / FCOMMENT / FHCRC, several members, trailing bytes, cuts, lying stored-block lengths), alone, "
+        "inside rpc_result and one packed level further in; packed objects nested 0..8 and up to 1000+ (thorough 3000+) levels "
+        "(c15.nest: stored-block gzip members written identically by the harness and the Lean driver) at the root, inside "
+        "rpc_result, in every level's rpc_result, inside a container member; every constructor that can contain itself "
+        "(found through the registry) repeated 1..1000+ (thorough 4000+) times with every count = bytes left / bytes left + 1 / "
+        "a quarter / a twelfth / 2^31-1 / 1 / 2, unhinted, hinted and into the named type (c15.rep); "
+        "hostile string headers; random bytes. Inputs built from the SCHEMA (own reader of schemes/api_latest.tl and own "
         "writer, c13e2e.go / c13groups_build.go - not the repository's encoder, which refuses or never makes some "
         "well-formed inputs): for every registered constructor and function with a flags word, no conditional parameter "
         "present / all present / each flag bit alone / random sets of bits, well-formed values after the flags word, and "
@@ -30,14 +55,19 @@ RULE = ("structure-aware mutation: a valid encoding of every registered struct c
         "process (nothing decoded before: per-process state such as a cache is cold), and two batches again in the harness "
         "process at the end; every member must have the result of the sequential model in every goroutine and the process "
         "must survive (a Go fatal error is neither a value nor an error). Each input is decoded (unknown object or named type) by the "
-        "real code under recover with allocation accounting and by the Lean model; outcome class and value compared. "
+        "real code under recover with time and allocation accounting (every decode: at most 5 s and 2 MiB + 2 KiB per input byte + "
+        "48 per byte its packed objects really inflate to) and by the Lean model with the fuel of decode_never_loops; outcome class and value compared. "
         "distinct = distinct operation lines")
 
 
 def run(ctx):
     ctx.assumptions += [
         "compress/gzip is not modelled: the harness records what gzip makes of every packed payload occurring in an input and the model uses that table",
-        "allocation is measured on the Go side (runtime.MemStats.TotalAlloc delta per call, bound 4 MiB + 2 KiB per input byte, gzip inputs excepted); the Lean side proves the size guards",
+        "allocation and time are measured on the Go side (runtime.MemStats.TotalAlloc delta per call, bound 2 MiB + 2 KiB per input byte + 48 per byte "
+        "the packed objects of the input inflate to according to compress/gzip run by the harness; 5 s per call); the Lean side proves the size guards, "
+        "the depth limit of packed objects and the fuel bound (depth of the call tree), not a cost bound",
+        "c15.nest: the stored-block gzip writer of harness and Lean driver is checked against compress/gzip on every operation; the model's gunzip "
+        "for these operations is the reader of such members",
         "schema-built inputs: the schema reader, value builder and writer of harness/cmd/vh/c13e2e.go + c13groups_build.go are trusted "
         "(nested objects are the smallest constructor of their type); concurrent decoding: the schedule is the Go runtime's - "
         "what is exercised is 2-16 goroutines released together over 48 inputs in different orders, in a process that has decoded nothing yet",
